@@ -60,6 +60,8 @@ type Profile struct {
 	Nontrivial func(w *World) bool
 	// Setup customises the world before tasks start.
 	Setup func(w *World)
+	// Drive, if set, replaces the main scheduler loop (default: Loop until all tasks are done).
+	Drive func(w *World) string
 	// Custom, if set, replaces the standard world entirely.
 	Custom func(p *Plan, keep bool) *Outcome
 }
@@ -171,7 +173,12 @@ func RunPlan(pr *Profile, p *Plan, keep bool) *Outcome {
 				w.TaskG[t] = g
 			}
 		}
-		reason := e.Loop(w.AllDone)
+		var reason string
+		if pr.Drive != nil {
+			reason = pr.Drive(w)
+		} else {
+			reason = e.Loop(w.AllDone)
+		}
 		if pr.After != nil && e.StopErr == nil {
 			pr.After(w, reason)
 		}
@@ -254,8 +261,8 @@ func (w *World) teardown() {
 		c.mu.Unlock()
 	}
 	// let released goroutines finish; fake time advances freely
-	for i := 0; i < 50; i++ {
-		time.Sleep(time.Minute)
+	for i := 0; i < 12; i++ {
+		time.Sleep(30 * time.Minute)
 		runtime.Gosched()
 	}
 }
